@@ -177,7 +177,8 @@ def check_case(ctx, case, pending):
     ctx.count("applied")
     rows_a = rows_of(o["B"].m)
     if isinstance(rows_a, str):
-        ctx.violation("C08:evaluation-fails-after-rewrite", "the CFI directives evaluated cleanly before the rewrite, afterwards: %s" % rows_a, case)
+        ctx.violation("C08:" + (SIG_STARTPROC_SLID if startproc_slid(case) else "evaluation-fails-after-rewrite"),
+                      "the CFI directives evaluated cleanly before the rewrite, afterwards: %s" % rows_a, case)
         return
     # the patches' own directives as written (the recorded patch may already have lost them)
     by_order = {i: e for i, e in enumerate(case.get("edits", []))}
@@ -206,10 +207,71 @@ def check_case(ctx, case, pending):
             return out
 
         rows_b, rows_a = drop_initial(rows_b), drop_initial(rows_a)
+    directive_accounting(ctx, case, o)
     recs = [r for r in o["rec"].records if "after" in r and not r.get("raised")]
     pending.append((case, o, {"op": "cfi_check", "before": o["before"], "after": o["after"], "edits": o["edits"],
                               "nop": emodify.nop_bytes(case), "rows_before": rows_b, "rows_after": rows_a,
                               "insns": emodify.decode_insns(o["before"])}, recs))
+
+
+STRUCTURAL = (".cfi_startproc", ".cfi_endproc", ".cfi_remember_state", ".cfi_restore_state")
+
+
+def directive_accounting(ctx, case, o):
+    """'deleting code drops only the directives that describe the deleted instructions': when no patch brings
+    directives of its own, the ordinary directives (not startproc/endproc/remember/restore, not the initial
+    instructions that share their location with a .cfi_startproc) after the rewrite are exactly those of before
+    minus the ones attached behind a deleted or replaced instruction - as multisets, wherever they now sit"""
+    if any(".cfi" in e.get("asm", "") for e in case.get("edits", [])):
+        return
+
+    def ordinary(dump, drop=None):
+        out = []
+        for b, k, ds in dump["aux"]["cfi"]:
+            initial = False
+            for d in ds:
+                if d[0] == ".cfi_startproc":
+                    initial = True           # what follows at this location is the procedure's initial state
+                elif d[0] == ".cfi_endproc":
+                    initial = False
+                elif d[0] not in STRUCTURAL and not initial and not (drop and drop(b, k)):
+                    out.append(json.dumps([d[0], d[1]]))
+        return sorted(out)
+
+    ranges = {}
+    for led in o["edits"]:
+        if led["del"]:
+            ranges.setdefault(led["block"], []).append((led["off"], led["off"] + led["del"]))
+    want = ordinary(o["before"], lambda b, k: any(s < k <= e for s, e in ranges.get(b, [])))
+    got = ordinary(o["after"])
+    ctx.count("directive-accounting")
+    if want != got:
+        extra = [x for x in got if got.count(x) > want.count(x)]
+        lost = [x for x in want if want.count(x) > got.count(x)]
+        ctx.violation("C08:directive-accounting",
+                      "ordinary CFI directives after the rewrite are not those of before minus the ones that described deleted "
+                      "instructions: %s" % ("; ".join(filter(None, ["survived although their instruction was deleted: %s" % sorted(set(extra)) if extra else "",
+                                                                    "lost although their instruction is still there: %s" % sorted(set(lost)) if lost else ""]))), case)
+
+
+SIG_STARTPROC_SLID = "startproc-at-a-block-end-slides-behind-a-patch-when-the-block-tail-is-deleted-in-the-same-batch"
+
+
+def startproc_slid(case):
+    """finding: the end of a block carries a .cfi_startproc (the procedure begins with the next block), one request
+    deletes or replaces the block's tail and another inserts a patch with directives of its own at that end"""
+    text = emodify.flat_of(case)
+    for i, d in enumerate(text):
+        if d["kind"] != "code":
+            continue
+        size = emodify.block_size(d)
+        if not any(k == size and any(x[0] == ".cfi_startproc" for x in ds) for k, ds in (d.get("cfi") or [])):
+            continue
+        mine = [e for e in case.get("edits", []) if e["block"] == i]
+        if any(e.get("len") and e["off"] + e["len"] == size for e in mine) and any(
+                e["op"] != "delete" and e["off"] + e.get("len", 0) == size and ".cfi" in e.get("asm", "") for e in mine):
+            return True
+    return False
 
 
 def end_of_procedure(case, o, issue):
@@ -260,7 +322,7 @@ def flush(ctx, pending):
             for e in case.get("edits", []):
                 if e.get("_tail"):
                     ctx.count("issue-with:" + e["_tail"])
-            sig = "C08:" + (SIG_END_OF_PROC if end_of_procedure(case, o, issue) else issue["kind"])
+            sig = "C08:" + (SIG_END_OF_PROC if end_of_procedure(case, o, issue) else SIG_STARTPROC_SLID if startproc_slid(case) else issue["kind"])
             ctx.violation(sig, issue["msg"], case)
     pending.clear()
 
@@ -292,7 +354,14 @@ def tail_patch(case, rng):
 
 
 def run(ctx):
+    import glob
+    import os
+
     pending = []
+    # minimized past failures first
+    for f in sorted(glob.glob(os.path.join(os.path.dirname(os.path.dirname(os.path.dirname(os.path.abspath(__file__)))), "corpus", "c08", "*.json"))):
+        ctx.count("corpus")
+        check_case(ctx, json.load(open(f)), pending)
     for _ in range(ctx.budget(1500, 40000)):
         case = decorate(emodify.gen_case(ctx.rng), ctx.rng)
         if ctx.rng.random() < 0.12:
